@@ -631,6 +631,19 @@ def check_fmap(desc, P, acc):
         for b in range(a, n + 1):
             r = obs("getitem", [a, b], lambda a=a, b=b: fm[a:b])
             expect("__getitem__(slice)", [a, b], r, want_table=t[a:b], want_parent=P)
+    # an integer index: one position; the length itself and beyond is outside, as for any python sequence
+    for i in range(n):
+        r = obs("getitem", i, lambda i=i: fm[i])
+        expect("__getitem__(int)", i, r, want_table=[t[i]], want_parent=P)
+    for i in (n, n + 1):
+        acc.case(("fmap int outside", tuple(map(tuple, desc)) if isinstance(desc, list) else desc, P, i))
+        try:
+            r = fm[i]
+            fm_fail(acc, "__getitem__(int)", desc, P, i, "no IndexError for an index equal to or beyond the length", str(r)[:80], "IndexError")
+        except IndexError:
+            pass
+        except Exception as e:  # noqa: BLE001
+            fm_fail(acc, "__getitem__(int)", desc, P, i, f"raised {type(e).__name__} for an index equal to or beyond the length", str(e)[:80], "IndexError")
     acc.sample({"featuremap": desc, "parent_length": P}, f"fmap{len(desc)}")
 
 
@@ -696,6 +709,14 @@ def check_locations(P, acc):
                 im = IndelMap.from_locations(locations=[tuple(x) for x in locs], parent_length=P)
                 if len(im) < 0 or any(int(g) > P for g, _ in im.get_gap_coordinates()):
                     acc.fail("IndelMap.from_locations: gap position outside parent", case, {"gaps": str(im.get_gap_coordinates())})
+                # the only gap such a map can have is the overhang of its last location, and it sits at the end of the parent
+                la, lb = locs[-1]
+                if la < P:
+                    want_gaps = [[P, lb - P]] if lb > P else []
+                    got_gaps = [[int(g), int(n)] for g, n in im.get_gap_coordinates()]
+                    if got_gaps != want_gaps:
+                        acc.fail("IndelMap.from_locations: gap coordinates [" + ("location reaching beyond the parent" if lb > P else "locations inside the parent") + "]",
+                                 case, {"got": got_gaps, "want": want_gaps})
             except Exception as e:  # noqa: BLE001
                 acc.fail(f"IndelMap.from_locations raised {type(e).__name__} [{'location reaching beyond the parent' if any(b > P for a, b in locs) else 'locations inside the parent'}]", case, {"error": str(e)[:200]})
     acc.sample({"from_locations": True, "P": P, "location lists": len(singles) + len(pairs)}, "locations")
